@@ -632,7 +632,7 @@ def run(ctx):
         configs.append(("E+siblings-ES-ntry1",
                         [{"pid": 1, "kind": "E", "root": None, "ntry": 1}, {"pid": 2, "kind": "E", "root": 1, "ntry": 1},
                          {"pid": 3, "kind": "S", "root": 1, "ntry": 1}], 1))
-    complete = explore(ctx, configs, cap, deadline=(ctx.t0 + 75) if ctx.tier == "quick" else None)
+    complete = explore(ctx, configs, cap, deadline=(ctx.t0 + 70) if ctx.tier == "quick" else None)
     ctx.exhaustive = complete
     lap("exhaustive")
     # 5. random three-process schedules
